@@ -30,8 +30,10 @@ for pid in ids:
     })
 manifest = {
     "version": 1,
-    "setup_cmd": "/venv/bin/python -c 'import hypothesis' 2>/dev/null || /venv/bin/pip install --no-index "
-                 "--find-links /opt/veriftools/wheels hypothesis",
+    "setup_cmd": "(/venv/bin/python -c 'import hypothesis' 2>/dev/null || /venv/bin/pip install --no-index "
+                 "--find-links /opt/veriftools/wheels hypothesis) && (PYTHONPATH=.deps /venv/bin/python -c 'import "
+                 "atheris' 2>/dev/null || /venv/bin/pip install --no-index --find-links /opt/veriftools/wheels "
+                 "--target .deps atheris)",
     "hooks": {
         "guard": "DNASPIDERWEB_VERIF",
         "enable": "no source hooks exist: look-ups are counted through an ndarray-subclass proxy passed in from "
@@ -46,6 +48,10 @@ manifest = {
          "kind_free_text": "Hypothesis 6.168 property-based testing (seeded by VERIF_SEED, sharded over 16 "
                            "processes, shrinking to a JSON replay file) plus complete multiprocessing enumeration of "
                            "the finite sub-domains; explicit independent oracles in pbt/oracles.py"},
+        {"name": "atheris-target", "path": "pbt/fuzz/target.py", "serves_properties": ["C06", "C09", "C10"],
+         "kind_free_text": "atheris 3.1 / libFuzzer coverage-guided campaigns (instrumenting dsw only) whose target "
+                           "decodes bytes into structured cases and applies the same semantic oracle; run as "
+                           "sub-checks by pbt/runner.py"},
     ],
     "checks": checks,
     "notes": "Genuine defects repaired in /repo by unguarded 'fix:' commits are listed in KNOWN_FINDINGS.txt as "
